@@ -45,7 +45,14 @@ Definition x_meta_view (m : x_meta) :=
    map rg_view (xm_regions1 m), map rg_view (xm_regions2 m), map me_view (xm_mentries m),
    (xm_size m, xm_block_size m, xm_has_parent m, xm_sector_size m, xm_id m),
    option_map pl_view (xm_locator m), xm_bat_offset m).
-Definition x_case (rd : reader) := rmap x_meta_view (x_open utf16le_decode (fun _ => true) rd).
+(* open_parent (external): the scratch directory of a case holds parent.vhdx only, so the parent resolves
+   exactly when "relative_path" names it; otherwise the lookup ends in IOError *)
+Definition parent_resolves (es : list (list Z * list Z)) : bool :=
+  match dict_get (tag "relative_path") es with
+  | Some v => list_eqb v (tag "parent.vhdx") || list_eqb v (tag ".\parent.vhdx")   (* the two forms the generator writes *)
+  | None => false
+  end.
+Definition x_case (rd : reader) := rmap x_meta_view (x_open utf16le_decode parent_resolves rd).
 
 Definition x_render_check (type_le : list Z) (kvs : list (list Z * list Z)) (bytes : list Z) : bool :=
   list_eqb (locator_render utf16le_encode type_le kvs) bytes.
